@@ -1,11 +1,11 @@
 #!/bin/bash
-# development: run every unit, text output, in parallel
+# development: run every unit, text output, in parallel; prints the failing lines with their unit
 export GOFLAGS=-mod=mod GOPROXY=off GOSUMDB=off GOTOOLCHAIN=local
 mkdir -p /verif/out/dev
 find /verif/out/dev -type f -delete
-/verif/bin/govc units | awk '{print $1}' > /verif/out/dev/units.txt
 find ${VERIF_REPO:-/repo} -name contracts_verif.go | while read f; do
-  grep -o '^//@ unit [a-z_0-9]*' $f | awk '{print $3}' | while read u; do echo "$f $u"; done
-done | xargs -P 10 -L 1 bash -c '/verif/bin/govc unit -file $0 -unit $1 -text -json /verif/out/dev/$1.json > /verif/out/dev/$1.txt 2>&1'
-cat /verif/out/dev/*.txt | grep -v "^==" 
-cat /verif/out/dev/*.txt | grep -c "^=="
+  d=$(dirname ${f#${VERIF_REPO:-/repo}/} | tr '/' '_')
+  grep -o '^//@ unit [a-z_0-9]*' $f | awk '{print $3}' | while read u; do echo "$f $u $d"; done
+done | xargs -P 12 -L 1 bash -c '/verif/bin/govc unit -file $0 -unit $1 -text > /verif/out/dev/$2.$1.txt 2>&1'
+grep -E "FAILED|SPEC ERROR|ERROR:|VACUOUS" /verif/out/dev/*.txt | sed 's|/verif/out/dev/||'
+echo "functions: $(cat /verif/out/dev/*.txt | grep -c '^==')"
